@@ -179,13 +179,36 @@ def coq_sources():
     return sorted(out)
 
 
-def ensure_coq_built():
-    """Incremental full build of the Coq development (setup.sh does it from clean)."""
-    if not os.path.exists(os.path.join(COQ, "Makefile")):
-        rc, out = run_cmd(["coq_makefile", "-f", "_CoqProject", "-o", "Makefile"], cwd=COQ)
-        if rc != 0:
-            return False, out
-    rc, out = run_cmd(["timeout", "1500", "make", "-j", str(os.cpu_count() or 8)], cwd=COQ, timeout=1600)
+def regen_coqproject():
+    """_CoqProject lists every .v under Base, Model, Proofs, Props, Generated (not Extract); regenerate it
+    and the Makefile when the set of files changed."""
+    files = []
+    for sub in ("Base", "Model", "Proofs", "Props", "Generated"):
+        d = os.path.join(COQ, sub)
+        if os.path.isdir(d):
+            for dd, _, fs in os.walk(d):
+                for f in sorted(fs):
+                    if f.endswith(".v") and not f.startswith("."):
+                        files.append(os.path.relpath(os.path.join(dd, f), COQ))
+    files.sort()
+    want = "-Q . Eupsv\n" + "\n".join(files) + "\n"
+    cp = os.path.join(COQ, "_CoqProject")
+    have = open(cp).read() if os.path.exists(cp) else ""
+    if want != have or not os.path.exists(os.path.join(COQ, "Makefile")):
+        tmp = cp + ".tmp%d" % os.getpid()
+        with open(tmp, "w") as f:
+            f.write(want)
+        os.replace(tmp, cp)
+        run_cmd(["coq_makefile", "-f", "_CoqProject", "-o", "Makefile"], cwd=COQ)
+
+
+def ensure_coq_built(targets=None):
+    """Incremental build (setup.sh does the full one from clean).  With targets (paths of .vo files relative
+    to coq/) only those and what they depend on are built, so another property's broken file cannot fail this
+    property's check."""
+    regen_coqproject()
+    cmd = ["timeout", "1500", "make", "-j", str(os.cpu_count() or 8)] + list(targets or [])
+    rc, out = run_cmd(cmd, cwd=COQ, timeout=1600)
     return rc == 0, out
 
 
@@ -251,11 +274,31 @@ def parse_assumptions(text):
     return res
 
 
-def forbidden_scan():
-    hits = []
-    for f in coq_sources():
+def coq_closure(files):
+    """the .v files (absolute paths) that the given files transitively Require from this development"""
+    seen, todo = [], list(files)
+    while todo:
+        f = todo.pop()
+        if f in seen or not os.path.exists(f):
+            continue
+        seen.append(f)
         txt = open(f, encoding="utf-8", errors="replace").read()
-        # drop comments (non-nested is enough for a conservative scan: scan both ways)
+        mods = []
+        for m in re.finditer(r"From\s+Eupsv\s+Require\s+(?:Import\s+|Export\s+)?(.*?)\.(?=\s|$)", txt, re.S):
+            mods += m.group(1).split()
+        for m in re.finditer(r"\bEupsv\.([A-Za-z_][\w]*(?:\.[A-Za-z_]\w*)*)", txt):
+            mods.append(m.group(1))
+        for mod in mods:
+            cand = os.path.join(COQ, *mod.split(".")) + ".v"
+            if os.path.exists(cand):
+                todo.append(cand)
+    return sorted(seen)
+
+
+def forbidden_scan(files=None):
+    hits = []
+    for f in (files if files is not None else coq_sources()):
+        txt = open(f, encoding="utf-8", errors="replace").read()
         for m in FORBIDDEN.finditer(txt):
             line = txt.count("\n", 0, m.start()) + 1
             hits.append("%s:%d:%s" % (os.path.relpath(f, ROOT), line, m.group(0)))
@@ -311,14 +354,17 @@ class Ctx:
 
     # ---- theorems
     def check_theorems(self, extra_files=()):
-        ok, out = ensure_coq_built()
+        ok, out = ensure_coq_built(["Props/%s.vo" % self.pid] +
+                                   [os.path.relpath(f, COQ)[:-2] + ".vo" for f in extra_files])
         if not ok:
-            self.proof_problems.append({"theorem": None, "what": "coq development does not build",
+            self.proof_problems.append({"theorem": None, "what": "the Coq files this property depends on do not build",
                                         "log": out[-3000:]})
-        hits = forbidden_scan()
+        files = [os.path.join(COQ, "Props", self.pid + ".v")] + list(extra_files)
+        closure = coq_closure(files)
+        self.extra["coq_files_in_closure"] = [os.path.relpath(f, COQ) for f in closure]
+        hits = forbidden_scan(closure)
         if hits:
             self.proof_problems.append({"theorem": None, "what": "forbidden construct", "hits": hits[:20]})
-        files = [os.path.join(COQ, "Props", self.pid + ".v")] + list(extra_files)
         for f in files:
             if not os.path.exists(f):
                 self.proof_problems.append({"theorem": None, "what": "missing " + f})
